@@ -38,19 +38,26 @@ class Tx(E):
     pass
 
 
+@spec_class(do_not_copy=["b", "c", "g"], bootstrap=True)
+class Dx(E):          # only the copy behaviour of inherited attributes differs: compare / repr flags are inherited unchanged
+    pass
+
+
 @spec_class(key="k", bootstrap=True)
 class KI:
     k: str
     v: int = 0
 
 
-CLASSES = {"E": E, "Sx": Sx, "Tx": Tx}
+CLASSES = {"E": E, "Sx": Sx, "Tx": Tx, "Dx": Dx}
 ET = {
     "E": {"attrs": ["f", "a", "b", "c", "g"], "compare": {"f": True, "a": True, "b": False, "c": True, "g": True},
           "repr": {"f": True, "a": True, "b": True, "c": False, "g": True}, "parents": []},
     "Sx": {"attrs": ["f", "a", "b", "c", "g", "d"], "compare": {"f": True, "a": True, "b": False, "c": True, "g": True, "d": True},
            "repr": {"f": True, "a": True, "b": True, "c": False, "g": True, "d": True}, "parents": ["E"]},
     "Tx": {"attrs": ["f", "a", "b", "c", "g"], "compare": {"f": True, "a": True, "b": False, "c": True, "g": True},
+           "repr": {"f": True, "a": True, "b": True, "c": False, "g": True}, "parents": ["E"]},
+    "Dx": {"attrs": ["f", "a", "b", "c", "g"], "compare": {"f": True, "a": True, "b": False, "c": True, "g": True},
            "repr": {"f": True, "a": True, "b": True, "c": False, "g": True}, "parents": ["E"]},
 }
 BM1, BM2 = {"t": "bm", "f": "meth1"}, {"t": "bm", "f": "meth2"}
